@@ -175,7 +175,7 @@ func newMacaroon(kid []byte, loc string, key SigningKey, isProof bool) (*Macaroo
 // magic power.
 func Decode(buf []byte) (*Macaroon, error) {
 	m := &Macaroon{}
-	if err := msgpack.Unmarshal(buf, m); err != nil {
+	if err := unmarshal(buf, m); err != nil {
 		return nil, fmt.Errorf("macaroon decode: %w", err)
 	}
 
@@ -434,7 +434,7 @@ func (m *Macaroon) verify(k SigningKey, dms []*Macaroon, parentTokenBindingIds [
 				}
 
 				var ticket wireTicket
-				if err = msgpack.Unmarshal(ticketr, &ticket); err != nil {
+				if err = unmarshal(ticketr, &ticket); err != nil {
 					dErr = errors.Join(dErr, fmt.Errorf("bad ticket in discharge: %w", err))
 					continue dmLoop
 				}
